@@ -227,7 +227,7 @@ func (C06) Execute(sc *core.Scenario, keepLog bool) *core.Result {
 			return ids, bs
 		}
 		newMsg := func(seed int) (*c06Msg, *imap.MessageCreated) {
-			g := e.NewMessage(seed, gen.Opts{})
+			g := e.NewMessage(seed, gen.Opts{EmbedIDHeader: seed%4 == 1})
 			id := u.Conn.NewMessageID()
 			flags := FlagsFromMask(seed&0x0f, 0)
 			obj, _ := model.NewObj(g.Marker, g.Bytes, flags)
@@ -348,7 +348,20 @@ func (C06) Execute(sc *core.Scenario, keepLog bool) *core.Result {
 				if e.Infra != nil {
 					return
 				}
-				r := st.submit(imap.NewMessagesCreated(false, batch...), fmt.Sprintf("MessagesCreated x%d", n))
+				// with IgnoreUnknownMailboxIDs the remote may name mailboxes gluon does not know
+				// (yet): they are skipped, everything else is applied
+				ignoreUnknown := a.Arg(4)%3 == 0
+				if ignoreUnknown {
+					for j, mc := range batch {
+						if (a.Arg(5)+j)%2 == 0 {
+							mc.MailboxIDs = append([]imap.MailboxID{"unknown-mailbox-x"}, mc.MailboxIDs...)
+						} else {
+							mc.MailboxIDs = append(mc.MailboxIDs, "unknown-mailbox-x")
+						}
+					}
+					e.St.Probes["ignore_unknown_batches"]++
+				}
+				r := st.submit(imap.NewMessagesCreated(ignoreUnknown, batch...), fmt.Sprintf("MessagesCreated x%d ignoreUnknown=%v", n, ignoreUnknown))
 				if e.Failed() {
 					return
 				}
@@ -603,7 +616,17 @@ func (C06) Execute(sc *core.Scenario, keepLog bool) *core.Result {
 				st.flushAll()
 				var upd imap.Update
 				what := ""
-				switch abs(a.Arg(1)) % 3 {
+				switch abs(a.Arg(1)) % 4 {
+				case 3:
+					var ids []imap.MailboxID
+					for _, b := range st.boxesOf(m.obj) {
+						ids = append(ids, imap.MailboxID(b.Remote))
+					}
+					if len(ids) == 0 {
+						break
+					}
+					parsed, _ := imap.NewParsedMessage(m.lit)
+					upd, what = imap.NewMessageUpdated(imap.Message{ID: m.id, Flags: flagSetOf(m.obj), Date: world.SimStart}, m.lit, ids, parsed, false), "restating MessageUpdated"
 				case 0:
 					upd, what = imap.NewMessageFlagsUpdated(m.id, flagSetOf(m.obj)), "restating MessageFlagsUpdated"
 				case 1:
